@@ -52,6 +52,10 @@ var Variants = []VariantInfo{
 	// uses the library's malformed set (only drawn while lib is lib_badset): the diagnostic is positioned in lib's
 	// file, so two such packages in one invocation fail with byte-identical errors
 	{Name: "bad_libset", Class: ClassBad, Stem: "multiple bindings", UsesLib: true},
+	// two set variables with ONE multi-value initialiser; the injector uses the second
+	{Name: "bad_multival", Class: ClassBad, Stem: "is not a provider or a provider set"},
+	// an injector PARAMETER of provider-set type, named like a package-level set variable
+	{Name: "bad_paramset", Class: ClassBad, Stem: "is not a provider or a provider set"},
 	{Name: "typeerr", Class: ClassTypeErr},
 }
 
@@ -529,6 +533,50 @@ import "github.com/google/wire"
 
 func InitBar() {RES} {
 	wire.Build(ProvideFoo{N}, ProvideBar)
+	{RET}
+}
+`),
+		}
+	case "bad_multival":
+		return []world.File{
+			f("model.go", basicModel),
+			f("sets.go", `package {P}
+
+import "github.com/google/wire"
+
+func two() (wire.ProviderSet, wire.ProviderSet) {
+	return wire.NewSet(ProvideFoo{N}), wire.NewSet(ProvideBar)
+}
+
+// A and B share one initialiser: neither is a wire.NewSet call wire can analyse.
+var A, B = two()
+`),
+			f("wire.go", injectHeader+`package {P}
+
+import "github.com/google/wire"
+
+func InitBar() {RES} {
+	wire.Build(ProvideFoo{N}, B)
+	{RET}
+}
+`),
+		}
+	case "bad_paramset":
+		return []world.File{
+			f("model.go", basicModel),
+			f("sets.go", `package {P}
+
+import "github.com/google/wire"
+
+var set = wire.NewSet(ProvideFoo{N}, ProvideBar)
+`),
+			f("wire.go", injectHeader+`package {P}
+
+import "github.com/google/wire"
+
+// InitBar takes a provider set as a PARAMETER that happens to be called like the package-level variable.
+func InitBar(set wire.ProviderSet) {RES} {
+	wire.Build(set)
 	{RET}
 }
 `),
